@@ -84,6 +84,8 @@ def run_model_group(g, tier, seed):
             tokens = json.loads(hist)
             for var in variants:
                 cfg, cmds = decode(tokens, var)
+                if cfg is None:
+                    continue
                 runs.append(dict(cfg=cfg, cmds=cmds, model_bad=bad, src=name, tokens=tokens))
             kept += 1
         out["tlc"].append(dict(cfg=name, generated=r["generated"], distinct=r["distinct"], wall=r["wall"],
